@@ -5,7 +5,9 @@ Require Import Verif.Loc.Model Verif.Loc.LocProps Verif.Base.Harness.
 Local Open Scope N_scope.
 
 Inductive obs_ctx := X (file sl sc el ec : N).
-Inductive c08_case := C (files : list file) (observed : list (N * list obs_ctx)).
+(* files in the order of the specification (root first), the import graph, and what the parser recorded per element;
+   an observed file number is the position of the file in the order the oracle expects (depth-first preorder) *)
+Inductive c08_case := C (files : list file) (graph : list (list N)) (observed : list (N * list obs_ctx)).
 
 Definition ctx_eqb (c : ctx) (o : obs_ctx) : bool :=
   match o with X f sl sc el ec =>
@@ -16,16 +18,16 @@ Fixpoint all2 {A B} (f : A -> B -> bool) (x : list A) (y : list B) : bool :=
   match x, y with [], [] => true | a :: x', b :: y' => f a b && all2 f x' y' | _, _ => false end.
 
 Definition c08_ok (c : c08_case) : bool :=
-  match c with C fs obs =>
-    let out := compile fs in
+  match c with C fs g obs =>
+    let out := compile_spec fs g in
     forallb (fun ko => all2 ctx_eqb (contexts_of (fst ko) out) (snd ko)) obs
     && forallb wf_file fs      (* the hypothesis of loc_end_ge_start holds of the case *)
   end.
 
 (* diagnostics: the keys on which model and observation differ, with both lists *)
 Definition c08_diff (c : c08_case) : list (N * list ctx * list obs_ctx) :=
-  match c with C fs obs =>
-    let out := compile fs in
+  match c with C fs g obs =>
+    let out := compile_spec fs g in
     flat_map (fun ko => if all2 ctx_eqb (contexts_of (fst ko) out) (snd ko) then []
                         else [(fst ko, contexts_of (fst ko) out, snd ko)]) obs
   end.
